@@ -392,6 +392,88 @@ def exBlockOpts : BlockOptions :=
 def exNs : BItem := { id := 1, cls := .module, hide := false, annOpaque := false, file := some ['i'], name := ['n'] }
 def exC6 : BItem := { id := 2, cls := .type, hide := false, annOpaque := false, file := some ['m'], name := ['C'] }
 
+/-! ### "types that contain it keep their correct layout" -/
+
+/-- a member of a containing record: emitted faithfully (its Rust type has the C layout), or as
+the opaque struct of `emitOpaque` -/
+inductive Member where
+  | faithful (size align : Nat)
+  | blobbed (size align : Nat) (hasBitfields : Bool)
+deriving Repr, DecidableEq
+
+/-- the member's C layout -/
+def Member.c : Member → Nat × Nat
+  | .faithful s a => (s, a)
+  | .blobbed s a _ => (s, a)
+
+/-- the layout rustc gives to the member's emitted type (`none`: rejected by rustc / `blob` panics) -/
+def Member.rust : Member → Option (Nat × Nat)
+  | .faithful s a => some (s, a)
+  | .blobbed s a bf => (emitOpaque ⟨s, a⟩ bf).bind OpaqueStruct.reprC
+
+/-- precondition on opaque members (what `C10_opaque_exact` needs; outside it: known findings) -/
+def Member.ok : Member → Prop
+  | .faithful _ _ => True
+  | .blobbed s a _ => okAlign a = true ∧ a ∣ s
+
+/-- rustc's `repr(C)` layout: offsets of the members, then (size, align) of the struct -/
+def reprCStruct (ms : List (Nat × Nat)) : List Nat × Nat × Nat :=
+  let r := ms.foldl (fun (acc : List Nat × Nat × Nat) m =>
+      let off := roundUp acc.2.1 m.2
+      (acc.1 ++ [off], off + m.1, max acc.2.2 m.2)) ([], 0, 1)
+  (r.1, roundUp r.2.1 r.2.2, r.2.2)
+
+def allSome {α : Type} : List (Option α) → Option (List α)
+  | [] => some []
+  | none :: _ => none
+  | some a :: r => (allSome r).map (a :: ·)
+
+/-- every member — opaque or not — has, as a Rust type, exactly its C size and alignment -/
+theorem members_rust_eq_c (ms : List Member) (h : ∀ m ∈ ms, m.ok) :
+    allSome (ms.map Member.rust) = some (ms.map Member.c) := by
+  induction ms with
+  | nil => rfl
+  | cons m ms ih =>
+    have hm := h m (List.mem_cons_self ..)
+    have ih' := ih (fun x hx => h x (List.mem_cons_of_mem _ hx))
+    cases m with
+    | faithful s a => simp [Member.rust, Member.c, allSome, ih']
+    | blobbed s a bf =>
+      have := C10_opaque_exact s a bf hm.1 hm.2
+      simp [Member.rust, Member.c, allSome, ih', this]
+
+/-- **A record that contains opaque types keeps its layout**: whichever of its members are emitted
+as opaque blobs (any subset, any position, with or without bit-fields), rustc's `repr(C)` member
+offsets, size and alignment of the container are those computed from the C layouts of the members —
+the same as with no member opaque. -/
+theorem C10_container_layout_kept (ms : List Member) (h : ∀ m ∈ ms, m.ok) :
+    (allSome (ms.map Member.rust)).map reprCStruct = some (reprCStruct (ms.map Member.c)) := by
+  rw [members_rust_eq_c ms h]; rfl
+
+/-- … in particular making a member opaque, or no longer opaque, moves nothing -/
+theorem C10_container_layout_opaque_irrelevant (pre post : List Member) (s a : Nat) (bf : Bool)
+    (hpre : ∀ m ∈ pre, m.ok) (hpost : ∀ m ∈ post, m.ok) (ha : okAlign a = true) (hd : a ∣ s) :
+    (allSome ((pre ++ Member.blobbed s a bf :: post).map Member.rust)).map reprCStruct =
+    (allSome ((pre ++ .faithful s a :: post).map Member.rust)).map reprCStruct := by
+  rw [C10_container_layout_kept, C10_container_layout_kept]
+  · simp [Member.c]
+  · intro m hm
+    rcases List.mem_append.1 hm with h | h
+    · exact hpre m h
+    · rcases List.mem_cons.1 h with h | h
+      · subst h; trivial
+      · exact hpost m h
+  · intro m hm
+    rcases List.mem_append.1 hm with h | h
+    · exact hpre m h
+    · rcases List.mem_cons.1 h with h | h
+      · subst h; exact ⟨ha, hd⟩
+      · exact hpost m h
+
+/-- non-vacuity: `struct { char c; Opaque16 o /*16 bytes, align 16*/; int i; }` -/
+example : (allSome ([Member.faithful 1 1, Member.blobbed 16 16 false, .faithful 4 4].map Member.rust)).map reprCStruct
+    = some ([0, 16, 32], 48, 16) := by decide
+
 def exWalkLookup : Nat → Option WalkItem
   | 0 => some ⟨0, true, [1], true, false, true⟩
   | 1 => some ⟨1, true, [2], true, isBlocklisted exBlockOpts exNs, true⟩
